@@ -95,7 +95,9 @@ var scopeProbes = append(append([]addrT{}, tcpAddrs...),
 	// WebSocket faces accepted by the real listener handler: scope by the TCP peer address, whatever
 	// the client's handshake headers claim (wsf)
 	addrT{"ws", "127.0.0.1", true}, addrT{"ws", "192.0.2.7", false}, addrT{"ws", "10.1.2.3", false},
-	addrT{"wsf", "192.0.2.7", false}, addrT{"wsf", "203.0.113.9", false}, addrT{"wsf", "127.0.0.1", true})
+	addrT{"wsf", "192.0.2.7", false}, addrT{"wsf", "203.0.113.9", false}, addrT{"wsf", "127.0.0.1", true},
+	// a face accepted by the real TCP listener from one of this host's own non-loopback addresses
+	addrT{"tcpl", "host", false})
 
 func (s *genSt) name() enc.Name {
 	r := s.r
